@@ -86,6 +86,11 @@ pub struct Sim {
     /// probability 1/dup (0 = never); drawn from a generator of its own
     dup: u64,
     dup_rng: Rng,
+    /// API calls issued concurrently with what is due at an instant at which the bootstrap worker
+    /// is expected to wake (a round's timeout, the periodic check): one in `race` candidates (0 = never)
+    race: u64,
+    races_left: usize,
+    race_ih: Option<Vec<u8>>,
 }
 
 fn sim_addr(v6: bool, i: usize, port: u16) -> SocketAddr {
@@ -221,7 +226,12 @@ pub async fn run_scenario(world: &mut World, req: &str, case: usize, out: &mut V
     // the scenario line itself is the replayable unit for the scenario-level oracles
     out.push((format!("note {req}"), "-".to_string()));
     let v6 = rng.chance(1, 4);
-    let mut sim = Sim { rng: rng.fork(), v6, peers: vec![], reals: vec![], flights: BinaryHeap::new(), seq: 0, lat_ms: (5, 300), end: 0, now_hint: 0, dup: 0, dup_rng: Rng::new(seed ^ 0xd0b1_e5) };
+    let mut sim = Sim { rng: rng.fork(), v6, peers: vec![], reals: vec![], flights: BinaryHeap::new(), seq: 0, lat_ms: (5, 300), end: 0, now_hint: 0, dup: 0, dup_rng: Rng::new(seed ^ 0xd0b1_e5), race: 0, races_left: 0, race_ih: None };
+    if kind != "e2e" && kind != "e2e24" && kind != "fresh" && sim.dup_rng.chance(1, 2) {
+        sim.race = *sim.dup_rng.pick(&[2u64, 4, 8]);
+        sim.races_left = 12;
+        st.hit("scenario_with_racing_api_calls");
+    }
     if kind != "e2e" && kind != "e2e24" && sim.dup_rng.chance(1, 3) {
         sim.dup = *sim.dup_rng.pick(&[2u64, 4, 10]);
         st.hit("scenario_with_duplicated_answers");
@@ -300,7 +310,9 @@ pub async fn run_scenario(world: &mut World, req: &str, case: usize, out: &mut V
     loop {
         steps += 1;
         if steps > max_steps { st.hit("scenario_step_limit"); break }
-        let next_ext = sim.flights.peek().map(|f| f.0.at).unwrap_or(u128::MAX).min(sim.end);
+        // a racing call is issued without letting its instant pass first
+        let next_racing = sim.flights.peek().map(|f| f.0.op.starts_with("racing ") && f.0.at <= sim.end).unwrap_or(false);
+        let next_ext = sim.flights.peek().map(|f| if next_racing { f.0.at - 1 } else { f.0.at }).unwrap_or(u128::MAX).min(sim.end);
         let now = world.now();
         let op = if now < next_ext {
             // let time pass until a node does something on its own or the next input is due
@@ -313,7 +325,36 @@ pub async fn run_scenario(world: &mut World, req: &str, case: usize, out: &mut V
                 if world.now() >= sim.end && sim.flights.peek().map(|f| f.0.at > sim.end).unwrap_or(true) { break }
                 let Some(Reverse(f)) = sim.flights.pop() else { break };
                 if f.at > sim.end { break }
-                (format!("{} @{}", f.op, f.at.max(world.now())), false)
+                // datagrams for one node that arrive at the same instant are in its socket together
+                let mut text = f.op.clone();
+                if f.op.starts_with("dg ") || f.op.starts_with("dgraw ") {
+                    let k = f.op.split_whitespace().nth(1).unwrap_or("").to_string();
+                    let item = |op: &str| { let w: Vec<&str> = op.split_whitespace().collect(); format!("{} {}", w[0], w[2..].join(" ")) };
+                    let mut items = vec![item(&f.op)];
+                    while items.len() < 4 {
+                        let same = sim.flights.peek().map(|g| g.0.at == f.at && (g.0.op.starts_with("dg ") || g.0.op.starts_with("dgraw ")) && g.0.op.split_whitespace().nth(1) == Some(k.as_str())).unwrap_or(false);
+                        if !same { break }
+                        let Some(Reverse(g)) = sim.flights.pop() else { break };
+                        items.push(item(&g.op));
+                    }
+                    if items.len() > 1 { text = format!("multi {k} {}", items.join(" || ")); }
+                    // now and then an API call is made while the datagram is being taken in
+                    // (until the first bootstrap completion of an `early` scenario: a search with every datagram,
+                    // so that one of them is handled right when the worker reports Bootstrapped)
+                    let first_completion_hunt = sim.race > 0 && sim.race_ih.is_some() && !ck.completed_once;
+                    if sim.race > 0 && f.at + 20 * S < sim.end && (first_completion_hunt || (sim.races_left > 0 && sim.dup_rng.chance(1, 3 * sim.race))) {
+                        let what = match (if first_completion_hunt { 2 } else { sim.dup_rng.below(4) }, &sim.race_ih) {
+                            (0, _) => "bootstrapped".to_string(),
+                            (1, _) => "state".to_string(),
+                            (_, Some(ih)) => format!("search {} {}", hex(ih), sim.dup_rng.below(2)),
+                            (_, None) => format!("search {} 0", hex(&sim.dup_rng.bytes(20))),
+                        };
+                        if !first_completion_hunt { sim.races_left -= 1; }
+                        let how = if first_completion_hunt { "on=boot".to_string() } else { format!("yields={}", sim.dup_rng.below(3)) };
+                        text = format!("combo {k} {how} api {what} || {}", items.join(" || "));
+                    }
+                }
+                (format!("{} @{}", text, f.at.max(world.now())), false)
             }
         };
         let res = if is_adv {
@@ -328,6 +369,24 @@ pub async fn run_scenario(world: &mut World, req: &str, case: usize, out: &mut V
         for e in &evs {
             if let Some((dst, bytes, ok)) = &e.sent {
                 if *ok { sim.on_send(world, e.node, *dst, bytes, e.t); }
+            }
+        }
+        // racing API calls at the instants at which the bootstrap worker is expected to wake
+        if sim.race > 0 && sim.races_left > 0 {
+            for e in &evs {
+                let d = if e.text.starts_with("B round ") { 500 * MS } else if e.text == "B check" || e.text == "B state Bootstrapped" { 5 * S } else if e.text.starts_with("B attempt ") { 2500 * MS } else { continue };
+                if sim.races_left == 0 || !sim.dup_rng.chance(1, sim.race) { continue }
+                let at = e.t + d;
+                // a search needs some seconds to end: none is started shortly before the scenario ends
+                if at + 20 * S >= sim.end { continue }
+                let what = match (sim.dup_rng.below(4), &sim.race_ih) {
+                    (0, _) => "bootstrapped".to_string(),
+                    (1, _) => "state".to_string(),
+                    (_, Some(ih)) => format!("search {} {}", hex(ih), sim.dup_rng.below(2)),
+                    (_, None) => format!("search {} 0", hex(&sim.dup_rng.bytes(20))),
+                };
+                sim.races_left -= 1;
+                sim.schedule(at, format!("racing api {} {what}", e.node));
             }
         }
         // probes wait for a moment at which a bootstrap exchange is pending
@@ -367,6 +426,7 @@ fn build_other(kind: &str, rng: &mut Rng, sim: &mut Sim, ck: &mut Checker, v6: b
                 sim.schedule(at, format!("api 0 search {} {}", hex(&ih), rng.below(2)));
             }
             sim.schedule(t0 + rng.below(3000) as u128 * MS, "api 0 bootstrapped".into());
+            sim.race_ih = Some(ih.clone());
             ck.expect_peer = Some((ih, peer));
         }
         // C18: a small network (the node re-bootstraps every 5 s) or a larger one, minutes to hours
@@ -543,6 +603,8 @@ struct NodeTrack {
 
 pub struct Checker {
     kind: String,
+    /// some node published Bootstrapped already
+    pub completed_once: bool,
     pub probes: Vec<u128>,
     expect_peer: Option<(Vec<u8>, SocketAddr)>,
     sample_contacts: bool,
@@ -555,7 +617,7 @@ pub struct Checker {
 
 impl Checker {
     fn new(kind: &str) -> Checker {
-        Checker { kind: kind.to_string(), probes: vec![], expect_peer: None, sample_contacts: false, e2e: None, track: HashMap::new(), probe_done: 0, expect_reply: vec![] }
+        Checker { kind: kind.to_string(), completed_once: false, probes: vec![], expect_peer: None, sample_contacts: false, e2e: None, track: HashMap::new(), probe_done: 0, expect_reply: vec![] }
     }
 
     /// C05 (F5) / C14: while a bootstrap exchange with a contact is pending, that contact sends a
@@ -591,7 +653,16 @@ impl Checker {
     }
 
     fn on_op(&mut self, world: &World, op: &str, case: usize, line: usize, st: &mut Stats, sim: &Sim) {
-        let w: Vec<&str> = op.split_whitespace().collect();
+        let mut w: Vec<&str> = op.split_whitespace().collect();
+        if w[0] == "racing" { w.remove(0); }
+        if w[0] == "combo" {
+            // the API call of a combo: `combo <k> yields=<n> api <what...> || ...`
+            let end = w.iter().position(|x| *x == "||").unwrap_or(w.len());
+            let mut v = vec!["api", w[1]];
+            v.extend(w[4..end].iter().copied());
+            v.push(w[w.len() - 1]);
+            w = v;
+        }
         let now = world.now();
         if w[0] == "nnew" {
             let k: usize = w[1].parse().unwrap();
@@ -659,6 +730,7 @@ impl Checker {
                 }
                 ("H", "bstate") if ws[2] == "true" => t.completions.push(e.t),
                 ("B", "state") if ws[2] == "Bootstrapped" => {
+                    self.completed_once = true;
                     // C15: not before a contact answered (unless there are no contacts at all)
                     if t.handled == 0 && !(t.routers.is_empty() && t.nodes.is_empty()) {
                         st.fail(case, line, &format!("[C15] node {k} reports bootstrapped although no contact has answered"));
